@@ -28,6 +28,12 @@ def run(tier):
                    "harness.truncate", "replay_trunc_case",
                    sample_fn=lambda rec: {"file": rec["file"], "fileLen": rec["fileLen"], "cuts": rec["cuts"][-3:]},
                    sample_every=211, expect_all_states=False)
+    # composition (TdmsSystem): writer sessions -> crash -> readers with / without the writer's index file, long
+    # simulated behaviours replayed on a scratch directory
+    from ..system import run_system
+    run_system(chk, 120 if tier == "quick" else 3000)
+    if tier == "thorough":
+        run_system(chk, 1500, cfg_over={"ObjChoices": "c_ObjChoicesStr"})
     chk.assumptions += ["the specification's byte layout (TdmsLayout) and the encoder's agree on every position (asserted)",
                         "marker + strings + multi-chunk last segment is outside the statement and not judged",
                         "verdicts use the statement's invariants on observed results; equality with the reader model "
